@@ -307,6 +307,47 @@ fn continue_char(out: &mut Vec<u8>, c: char) {
     }
 }
 
+/// an attribute value with its quotes. `Canon`: exactly what s3s writes (`attr_value`: the five markup characters,
+/// tab, LF and CR as references, double quotes). Otherwise: references chosen freely, either quote, `>` and the
+/// other quote left alone, and a space also written as a literal tab / LF / CR LF / CR (XML 1.0 3.3.3: attribute-value
+/// normalisation turns each of them into ONE space; tab, LF and CR themselves only survive as references).
+fn attr_text(rng: &mut Rng, s: &str, style: Style) -> String {
+    if style == Style::Canon {
+        let mut o = String::from("\"");
+        for c in s.chars() {
+            match c {
+                '\t' => o.push_str("&#9;"),
+                '\n' => o.push_str("&#10;"),
+                _ => o.push_str(std::str::from_utf8(&escape_canon(&c.to_string())).unwrap()),
+            }
+        }
+        o.push('"');
+        return o;
+    }
+    let q = if rng.chance(1, 3) { '\'' } else { '"' };
+    let mut o = String::new();
+    o.push(q);
+    for c in s.chars() {
+        match rng.below(10) {
+            0 if (c as u32) != 0 => o.push_str(&format!("&#{};", c as u32)),
+            1 if (c as u32) != 0 => o.push_str(&format!("&#x{:x};", c as u32)),
+            2 | 3 | 4 if c == ' ' => o.push_str(rng.pick(&["\t", "\n", "\r\n", "\r"])),
+            _ => match c {
+                '<' => o.push_str("&lt;"),
+                '&' => o.push_str("&amp;"),
+                '\t' => o.push_str("&#9;"),
+                '\n' => o.push_str("&#xA;"),
+                '\r' => o.push_str("&#13;"),
+                '"' if q == '"' => o.push_str("&quot;"),
+                '\'' if q == '\'' => o.push_str("&apos;"),
+                _ => o.push(c),
+            },
+        }
+    }
+    o.push(q);
+    o
+}
+
 const MONTHS: [&str; 12] = ["Jan", "Feb", "Mar", "Apr", "May", "Jun", "Jul", "Aug", "Sep", "Oct", "Nov", "Dec"];
 
 fn gen_timestamp(rng: &mut Rng, fmt: &str, style: Style) -> String {
@@ -340,8 +381,9 @@ fn gen_timestamp(rng: &mut Rng, fmt: &str, style: Style) -> String {
 struct Gen<'a> {
     tables: &'a Value,
     style: Style,
-    /// write `Grantee`'s `xsi:type` the way the Smithy model says (attribute + namespace declaration)
-    sdk_attr: bool,
+    /// write a member that is bound to an attribute (`Grantee`'s `xsi:type`) the way s3s did until 1dc4ea8: as a child
+    /// element of that name (such documents are refused now)
+    attr_as_child: bool,
     /// shuffle members, add whitespace / comments between members, attributes, `<a/>` for empty elements
     layout_free: bool,
 }
@@ -410,12 +452,13 @@ impl Gen<'_> {
             if !present {
                 continue;
             }
-            if self.sdk_attr && ty == "Grantee" && tag == "xsi:type" {
-                let v = rng.pick(&["CanonicalUser", "Group", "AmazonCustomerByEmail"]);
-                attrs = format!(" xmlns:xsi=\"http://www.w3.org/2001/XMLSchema-instance\" xsi:type=\"{v}\"");
+            let times = if let Plan::Twice(i) = plan { if top && *i == idx { 2 } else { 1 } } else { 1 };
+            if f["attr"] == true && !self.attr_as_child {
+                for _ in 0..times {
+                    attrs.push_str(&self.attribute(rng, tag, fk));
+                }
                 continue;
             }
-            let times = if let Plan::Twice(i) = plan { if top && *i == idx { 2 } else { 1 } } else { 1 };
             for _ in 0..times {
                 let n_items = match plan {
                     Plan::Random => {
@@ -474,6 +517,33 @@ impl Gen<'_> {
         (kids, attrs)
     }
 
+    /// the attribute `name` with a value of kind `kind` (a string kind), with the declaration of its prefix the way
+    /// an SDK writes it; in the free layouts also behind the attribute, left out (s3s does not ask for it), and with
+    /// white space around `=`
+    fn attribute(&self, rng: &mut Rng, name: &str, kind: &str) -> String {
+        let v = if kind == "enm" && rng.chance(2, 3) {
+            rng.pick(&["CanonicalUser", "Group", "AmazonCustomerByEmail"]).to_owned()
+        } else {
+            gen_string(rng)
+        };
+        let val = attr_text(rng, &v, self.style);
+        let decl = match name.split_once(':') {
+            Some(("xsi", _)) => " xmlns:xsi=\"http://www.w3.org/2001/XMLSchema-instance\"",
+            _ => "",
+        };
+        if !self.layout_free {
+            return format!("{decl} {name}={val}");
+        }
+        let eq = rng.pick(&["=", "=", "=", " = ", "\n=", "=\t"]);
+        let sep = rng.pick(&[" ", " ", "\n  ", "\t"]);
+        match rng.below(6) {
+            0 => format!("{sep}{name}{eq}{val}{decl}"),
+            1 => format!("{sep}{name}{eq}{val}"),
+            2 => format!("{decl}{sep}{name}{eq}{val} "),
+            _ => format!("{decl}{sep}{name}{eq}{val}"),
+        }
+    }
+
     fn elem(&self, rng: &mut Rng, name: &str, mut attrs: String, kids: Vec<Node>) -> Node {
         let mut selfclose = false;
         if self.layout_free {
@@ -487,7 +557,7 @@ impl Gen<'_> {
 
     /// the element group of every member of struct type `ty` (one element; a flattened list: two), all present;
     /// `None` for unions and for the unwrapped GetBucketLocationOutput
-    fn groups(&self, rng: &mut Rng, ty: &str) -> Option<Vec<Vec<Node>>> {
+    fn groups(&self, rng: &mut Rng, ty: &str) -> Option<(Vec<Vec<Node>>, String)> {
         let t = &self.tables["types"][ty];
         if t["de_root"]["kind"] == "location" {
             return None;
@@ -497,9 +567,15 @@ impl Gen<'_> {
             return None;
         }
         let mut out = Vec::new();
+        let mut attrs = String::new();
         for f in def["fields"].as_array().unwrap() {
             let tag = f["tag"].as_str().unwrap();
             let fk = f["kind"].as_str().unwrap();
+            if f["attr"] == true {
+                // no element group: the member stands in the start tag of the struct's element
+                attrs.push_str(&self.attribute(rng, tag, fk));
+                continue;
+            }
             let mut g = Vec::new();
             match f["shape"].as_str().unwrap() {
                 "single" => {
@@ -524,7 +600,7 @@ impl Gen<'_> {
             }
             out.push(g);
         }
-        Some(out)
+        Some((out, attrs))
     }
 
     fn document(&self, rng: &mut Rng, ty: &str, plan: &Plan) -> Node {
@@ -650,7 +726,19 @@ fn mutate_tree(rng: &mut Rng, root: &mut Node) -> &'static str {
             "ins-elem"
         }
         _ => {
-            *attrs = rng.pick(&[" a=\"1\"", " a='>'", " a=\">\"", " a", " a=b", " a=\"", " xsi:type=\"Group\"", "/", " /", " a=\"1\" a=\"2\""]).to_owned();
+            let junk = rng
+                .pick(&[
+                    " a=\"1\"", " a='>'", " a=\">\"", " a", " a=b", " a=\"", " xsi:type=\"Group\"", "/", " /", " a=\"1\" a=\"2\"",
+                    " xsi:type='a&#9;b\tc'", " xsi:type", " xsi:type=", " xsi:type = 'x' ", " =\"1\"", " xsi:type=\"&#0;\"", " xsi:type=\"&bogus;\"",
+                    " XSI:TYPE=\"Group\"", " a = \"1\"b='2'",
+                ])
+                .to_owned();
+            // replace the attributes, or put the new ones in front of / behind those the element has
+            *attrs = match rng.below(4) {
+                0 => format!("{junk}{attrs}"),
+                1 => format!("{attrs}{junk}"),
+                _ => junk,
+            };
             *selfclose = *selfclose || rng.chance(1, 4);
             "attrs"
         }
@@ -714,10 +802,10 @@ fn generate(rng: &mut Rng, n: u64, tier: &str, emit: &mut dyn FnMut(Vec<String>)
     let tables: Value = serde_json::from_str(TABLES).expect("gen_xml_tables.json");
     let both: Vec<String> = tables["both"].as_array().unwrap().iter().map(|v| v.as_str().unwrap().to_owned()).collect();
     let mut put = |ty: &str, doc: &[u8]| emit(vec![ty.to_owned(), hex(doc)]);
-    let canon = Gen { tables: &tables, style: Style::Canon, sdk_attr: false, layout_free: false };
-    let free = Gen { tables: &tables, style: Style::Free, sdk_attr: false, layout_free: true };
-    let sdk = Gen { tables: &tables, style: Style::Canon, sdk_attr: true, layout_free: false };
-    let wild = Gen { tables: &tables, style: Style::Wild, sdk_attr: false, layout_free: true };
+    let canon = Gen { tables: &tables, style: Style::Canon, attr_as_child: false, layout_free: false };
+    let free = Gen { tables: &tables, style: Style::Free, attr_as_child: false, layout_free: true };
+    let legacy = Gen { tables: &tables, style: Style::Canon, attr_as_child: true, layout_free: false };
+    let wild = Gen { tables: &tables, style: Style::Wild, attr_as_child: false, layout_free: true };
 
     // S1: deterministic sweep — every type: minimal, maximal, each member left out, each member twice
     for ty in &both {
@@ -750,14 +838,16 @@ fn generate(rng: &mut Rng, n: u64, tier: &str, emit: &mut dyn FnMut(Vec<String>)
     // copies stand: only the required other members present (copies first / last), and all members present
     // (copies first, last, and one first + one last).
     for ty in &both {
-        let Some(g1) = canon.groups(rng, ty) else { continue };
-        let Some(g2) = canon.groups(rng, ty) else { continue };
-        let fields = tables["types"][ty]["de"]["fields"].as_array().unwrap();
+        let Some((g1, attrs)) = canon.groups(rng, ty) else { continue };
+        let Some((g2, _)) = canon.groups(rng, ty) else { continue };
+        // the members that are elements (a member bound to an attribute has no position among them)
+        let fields: Vec<&Value> =
+            tables["types"][ty]["de"]["fields"].as_array().unwrap().iter().filter(|f| f["attr"] != true).collect();
         let nf = fields.len();
         let mut emit_order = |rng: &mut Rng, parts: Vec<&Vec<Node>>| {
             let kids: Vec<Node> = parts.into_iter().flat_map(|g| g.iter().cloned()).collect();
             let mut out = Vec::new();
-            render(&canon.wrap_root(rng, ty, kids, String::new()), &mut out);
+            render(&canon.wrap_root(rng, ty, kids, attrs.clone()), &mut out);
             put(ty, &out);
         };
         if nf >= 2 {
@@ -814,12 +904,21 @@ fn generate(rng: &mut Rng, n: u64, tier: &str, emit: &mut dyn FnMut(Vec<String>)
             }
         }
     }
-    // S7: documents the way an SDK writes `Grantee` (xsi:type as attribute), for the types that contain it
+    // S7: `Grantee`'s `xsi:type`, for the types that contain it. Every generator above writes it the way the Smithy
+    // model says and an SDK does (attribute + namespace declaration; the class `xml-xsi-type`, repaired by 1dc4ea8).
+    // Here: the same documents in the free layouts (either quote, references, declaration behind the attribute or
+    // left out, white space around `=`), and the form s3s read and wrote until then — a child element `<xsi:type>` —
+    // which must be refused now.
     for ty in ["AccessControlPolicy", "Grant", "Grantee", "TargetGrant", "BucketLoggingStatus", "LoggingEnabled"] {
         if both.iter().any(|t| t == ty) {
             for p in [Plan::Max, Plan::Random, Plan::Random] {
                 let mut out = Vec::new();
-                render(&sdk.document(rng, ty, &p), &mut out);
+                render(&free.document(rng, ty, &p), &mut out);
+                put(ty, &out);
+            }
+            for p in [Plan::Max, Plan::Random] {
+                let mut out = Vec::new();
+                render(&legacy.document(rng, ty, &p), &mut out);
                 put(ty, &out);
             }
         }
